@@ -1,6 +1,7 @@
 mod explore;
 mod json;
 mod link;
+mod nc;
 mod props;
 mod report;
 
